@@ -84,14 +84,15 @@ fn rcu_into<S: StratExt<V>>(w: &mut Worker<V, S>) {
     w.pending.borrow_mut().take();
     let att = attempts.into_inner();
     let (prev_id, prev_addr) = (prev.vid(), prev.addr() as u64);
+    let call_path = w.last_path.replace(0);
     {
         let mut res = w.res.borrow_mut();
         if let Some(first) = att.first() {
-            res.ops.push(Op { t: t as u8, c: c as u8, kind: Kind::Load, a: 0, cur_addr: 0, ret: first.2, ret_addr: first.3, inv, resp: first.0, path: 0 });
+            res.ops.push(Op { t: t as u8, c: c as u8, kind: Kind::Load, a: 0, cur_addr: 0, ret: first.2, ret_addr: first.3, inv, resp: first.0, path: call_path });
         }
         for (k, a) in att.iter().enumerate() {
             let (ret, ret_addr, r) = if k + 1 < att.len() { (att[k + 1].2, att[k + 1].3, att[k + 1].0) } else { (prev_id, prev_addr, resp) };
-            res.ops.push(Op { t: t as u8, c: c as u8, kind: Kind::Cas, a: a.4, cur_addr: a.3, ret, ret_addr, inv: a.1, resp: r, path: 0 });
+            res.ops.push(Op { t: t as u8, c: c as u8, kind: Kind::Cas, a: a.4, cur_addr: a.3, ret, ret_addr, inv: a.1, resp: r, path: call_path });
             if k + 1 < att.len() {
                 res.discarded.push(a.4);
             }
@@ -240,7 +241,7 @@ where
     let out = analyze::<V, S>(p, &desc, &sh, all_ok, init_ids, addr_of, nt, nc, if cfg.mode == Mode::Off { Mode::Free } else { cfg.mode }, cfg.record, viol_before, trace_hash, steps);
     runner::HOLD_VIOLATIONS.store(false, SeqCst);
     if plan.is_some() {
-        let raw = crate::viol::take();
+        let raw = pass_through(crate::viol::take(), &desc);
         if !raw.is_empty() {
             let (ctx, ctx_json) = match &inj {
                 Some(i) => (
@@ -266,6 +267,20 @@ where
         }
     }
     PanicOut { out, counts, injected: inj.is_some(), caught: caught.load(SeqCst) }
+}
+
+/// Reports that have nothing to do with the injected panic (the address-reuse mechanism D5, which
+/// has its own precise kind) are reported as they are; the rest is folded by the caller.
+fn pass_through(raw: Vec<crate::viol::Violation>, desc: &serde_json::Value) -> Vec<crate::viol::Violation> {
+    let mut rest = Vec::new();
+    for v in raw {
+        if v.kind == "prepaid-stale-debt-foreign-value" {
+            runner::violation(&v.prop, &v.kind, v.detail.clone(), desc);
+        } else {
+            rest.push(v);
+        }
+    }
+    rest
 }
 
 fn op_name(op: u8) -> String {
@@ -518,7 +533,7 @@ pub fn directed_destructor_in_debt_walk(plan: Option<(u8, u64)>, exec_no: u64) -
     let out = analyze::<V, S>(&p, &desc, &sh, all_ok, init_ids, addr_of, nt, 1, Mode::Token, false, viol_before, trace_hash, steps);
     runner::HOLD_VIOLATIONS.store(false, SeqCst);
     if plan.is_some() {
-        let raw = crate::viol::take();
+        let raw = pass_through(crate::viol::take(), &desc);
         if !raw.is_empty() {
             let ctx = match &inj {
                 Some(i) => format!(
